@@ -158,8 +158,23 @@ def run_pair(case) -> List[Tuple[str, str, str]]:
                          "ep1→ep2": {"id": "ep1→ep2", "src": "ep1", "dst": "ep2", "weight": 0.6, "rel": "coact", "attrs": {}}},
                "meta": {"schema": "v1.1", "merges": [], "splits": [], "promotions": [], "concept_nodes_count": 0, "edges_count": 2}}
         sess = {}
+        perf_custom = "perf" in case["closed"] and case["sub"].get("perf", "omitted") != "omitted"
         for name, cfg in (("A", cfgA), ("B", cfgB)):
             E.reset_global_caches()
+            if perf_custom:
+                # a warm process: an earlier engine state in this process ran the same world with the perf gate OPEN and
+                # the very caps that the closed subtree lists; what it left in the process-global stage caches must not
+                # reach the run whose gate is closed (same prelude before A and before B)
+                warm_cfg = E.deep_merge(copy.deepcopy(cfgA), {"perf": {"enabled": True, "metrics": {"report_memory": False},
+                                                                          "parallel": {"enabled": False}}})
+                w = Session(os.path.join(work, name + "_warm"), base_cfg=warm_cfg, graphs=graphs)
+                w.raw_cfg = True
+                w.state["graph"] = copy.deepcopy(gel)
+                w.state["gel"] = w.state["graph"]
+                for t in range(3):
+                    w.text = TEXTS[t]
+                    w.run({"plan_refl": True})
+                del w
             s = Session(os.path.join(work, name), base_cfg=cfg, graphs=graphs)
             s.raw_cfg = True
             s.log_dir = os.path.join(work, name, "logs")
@@ -173,11 +188,27 @@ def run_pair(case) -> List[Tuple[str, str, str]]:
                 o["snap_digest"] = _digest(open(snap, "rb").read()) if os.path.exists(snap) else None
                 o["state"] = _state_proj(s)
                 outs.append(o)
+            # a fourth turn through the multi-agent driver: with the parallel gate closed it is one ordinary turn
+            import clematis.engine.orchestrator.parallel as par
+            dcfg = E.validated_cfg(s.cfg_for({}))
+            dctx = E.mk_ctx(dcfg, "driver", 4, now_ms=E.NOW_MS + 4000)
+            o4: Dict[str, Any] = {"raised": None, "line": None}
+            with E.LogCapture(write_through=True, log_dir=s.log_dir) as cap4, E.patched_time(E.FakeTime(steps=(0.0,))):
+                try:
+                    r4 = par._run_agents_parallel_batch(dctx, s.state, [("A", TEXTS[0])])
+                    o4["line"] = [getattr(x, "line", None) for x in r4]
+                except Exception as e:      # noqa: BLE001
+                    o4["raised"] = f"{type(e).__name__}: {e}"
+            o4["records"] = cap4.records
+            snap = os.path.join(s.snapdir, "state_A.json")
+            o4["snap_digest"] = _digest(open(snap, "rb").read()) if os.path.exists(snap) else None
+            o4["state"] = _state_proj(s)
+            outs.append(o4)
             sess[name] = (s, outs)
         closed_custom = sorted(f for f in case["closed"] if case["sub"][f] != "omitted")
-        for t in range(3):
+        for t in range(4):
             a, b = sess["A"][1][t], sess["B"][1][t]
-            where = f"closed={sorted(case['closed'])} customised={closed_custom} turn {t + 1}"
+            where = f"closed={sorted(case['closed'])} customised={closed_custom} turn {t + 1}" + (" (through the multi-agent driver)" if t == 3 else "")
             if a["raised"] or b["raised"]:
                 fails.append(("InertSubtree", "raise", f"{where}: run_turn raised: with subtree {a['raised']!r}, omitted {b['raised']!r}"))
                 break
